@@ -75,7 +75,7 @@ def _near_edge(Fn_col, f, rtol):
     if p.size == 0:
         return False
     d = np.abs(p - f)
-    return bool(np.any(np.abs(d - rtol * f) <= EDGE * f + 2e-8))
+    return bool(np.any(np.abs(d - rtol * f) <= EDGE * f))
 
 
 def model_explicit(Fn, req, orders, rtol):
@@ -209,7 +209,7 @@ def judge_find_min(case, kind):
     stable = np.isfinite(Fn) & (Lab == 1)
     for f in req:
         d = np.abs(Fn[stable] - f)
-        if np.any(np.abs(d - rtol * f) <= EDGE * f + 2e-8):
+        if np.any(np.abs(d - rtol * f) <= EDGE * f):
             j.skip("stable-pole-near-band-edge")
             return j
     c, rows = model_find_min(Fn, Lab, req, rtol)
@@ -295,7 +295,7 @@ def judge_class(case):
         stable = np.isfinite(Fn) & (Lab == 1)
         for f in req:
             d = np.abs(Fn[stable] - f)
-            if np.any(np.abs(d - rtol * f) <= EDGE * f + 2e-8):
+            if np.any(np.abs(d - rtol * f) <= EDGE * f):
                 j.skip("stable-pole-near-band-edge")
                 return j
         c, rows = model_find_min(Fn, Lab, req, rtol)
